@@ -112,31 +112,23 @@ var strKit = kit[string]{
 	},
 }
 
-func Run(c Case) pbt.Outcome {
-	keptStrings = keptStrings[:0]
-	out := runElem(c)
-	if out.Violation == "" {
-		if msg := keptIntact(); msg != "" {
-			return pbt.Fail("%s", msg)
-		}
-	}
-	return out
-}
+func Run(c Case) pbt.Outcome { return runElem(c) }
 
 // keptStrings: every String() result of the case, kept by the caller, with a private copy made when it was
 // returned. A string is immutable: what String returned must still read the same after any later call.
 type keptString struct{ got, copied, what string }
 
-var keptStrings []keptString
+// kept is per run (a field of the runner): Run is reentrant (pbt.Spec.Replicas)
+type kept struct{ list []keptString }
 
-func keepString(what, got string) {
-	if len(keptStrings) < 64 {
-		keptStrings = append(keptStrings, keptString{got, strings.Clone(got), what})
+func (kp *kept) keep(what, got string) {
+	if kp != nil && len(kp.list) < 64 {
+		kp.list = append(kp.list, keptString{got, strings.Clone(got), what})
 	}
 }
 
-func keptIntact() string {
-	for i, k := range keptStrings {
+func (kp *kept) intact() string {
+	for i, k := range kp.list {
 		if k.got != k.copied {
 			return fmt.Sprintf("the string returned by String() call number %d of the case (%s) changed after later calls: it now reads %.80q, it was returned as %.80q", i+1, k.what, k.got, k.copied)
 		}
@@ -184,7 +176,8 @@ type operand[T comparable] struct {
 }
 
 type runner[T comparable] struct {
-	k kit[T]
+	kp *kept
+	k  kit[T]
 }
 
 func (r runner[T]) codes(vs []T) []int {
@@ -252,7 +245,7 @@ func (r runner[T]) at(code int) (T, uint32) {
 // equal-comparing values with different renderings (0.0 and -0.0) may appear as either.
 func (r runner[T]) checkString(what string, s sets.Set[T], m uint32) string {
 	got := s.String()
-	keepString(what, got)
+	r.kp.keep(what, got)
 	alts := r.wantStrings(m)
 	if len(got) >= 2 && got[0] == '{' && got[len(got)-1] == '}' && matchBody(got[1:len(got)-1], alts) {
 		return ""
@@ -596,7 +589,18 @@ func aliasable(op string) bool {
 }
 
 func run[T comparable](c Case, k kit[T]) pbt.Outcome {
-	r := runner[T]{k: k}
+	kp := &kept{}
+	out := runWith(c, k, kp)
+	if out.Violation == "" {
+		if msg := kp.intact(); msg != "" {
+			return pbt.Fail("%s", msg)
+		}
+	}
+	return out
+}
+
+func runWith[T comparable](c Case, k kit[T], kp *kept) pbt.Outcome {
+	r := runner[T]{k: k, kp: kp}
 	var out pbt.Outcome
 	a, msg := r.build("A", c.A)
 	if msg != "" {
@@ -917,7 +921,7 @@ var specRand = pbt.Register(&pbt.Spec[Case]{
 		c.Post = pbt.OpsOf(t, pop, []int{0, 1, 3}, "post")
 		return c
 	},
-	Run: Run, Quick: 30000, Thorough: 200000,
+	Run: Run, Quick: 30000, Thorough: 200000, Replicas: 4, ReplicaEvery: 16,
 	// broken library code may fail or not depending on the order in which the library walks its own Go maps
 	// (AddSet, Union, ... range over one); a replay therefore gets several attempts
 	Retries: 40,
